@@ -108,9 +108,9 @@ pub fn op(f: &[&str]) -> String {
         "neb" => b2s(vh::need_expand_brace(&dec(f[1]))),
         "ng" => b2s(vh::needs_globbing(&dec(f[1]))),
         "sdd" => b2s(vh::should_do_dollar_command_extension(&dec(f[1]))),
-        "one" => {
+        "once" => {
             let a = apply_world(f[1]);
-            pidpfx(q(&vh::expand_one_env(&a.sh, &dec(f[2]))))
+            pidpfx(q(&vh::expand_env_once(&a.sh, &dec(f[2]))))
         }
         "env" => {
             let a = apply_world(f[1]);
